@@ -451,6 +451,6 @@ func runC02(c *fw.Ctx) {
 	c.Cases(15, func(i int) string { return fmt.Sprintf("partA|block=%d", i) }, func(i int, k *fw.K) { c02PartA(k, i) })
 	nw := c.Pick(200, 20000)
 	c.Cases(nw, func(i int) string { return fmt.Sprintf("walk|i=%d", i) }, func(i int, k *fw.K) { c02Walk(k, i) })
-	n := c.Pick(240, 24000)
+	n := c.Pick(240, 10000)
 	c.Cases(n, func(i int) string { return fmt.Sprintf("partB|%s i=%d", c02Scenarios[i%len(c02Scenarios)], i) }, func(i int, k *fw.K) { c02PartB(k, i) })
 }
